@@ -189,7 +189,7 @@ def prefix_rule(ctx, wf):
                 cond = sir.expr_str(p["cond"])
                 break
         # the flag is set only next to the `...var` spread in the model branch under `from_data_scope`
-        sets = [n for n in sir.walk(wf.body) if n.get("k") == "assign" and sir.expr_str(n["l"]) == cond and n["r"].get("v") is True]
+        sets = [n for n in sir.walk(wf.body) if n.get("k") == "assign" and sir.expr_str(n["l"]) == cond]
         ok = len(sets) == 1
         if ok:
             q = sets[0]
@@ -203,6 +203,69 @@ def prefix_rule(ctx, wf):
                     in_model = True
             ok = in_model and guarded
     obs.append(ob("C11.prefix/slice1", ok, ctx.where(wf), "`.slice(1)` is applied only to a spread data-scope loop variable in model mode: %s" % ok))
+    return obs
+
+
+def ternary_rule(ctx):
+    """C11.cond: wherever a conditional path is emitted as `c ? .. : ..`, the true branch sits between `?` and `:` and the false
+    branch after `:`."""
+    import emitseq as es
+    ob = ctx.ob
+    tc = ctx.tc
+    obs = []
+    n = 0
+    for f in tc.fns:
+        if not f.body or "proc_gen" not in f.module or "expr" not in f.module:
+            continue
+        names = set()
+        for x in sir.walk(f.body):
+            if x.get("k") == "p_ident":
+                names.add(x["name"])
+        tnames = [x for x in names if x.startswith("true")]
+        fnames = [x for x in names if x.startswith("false")]
+        if not tnames or not fnames:
+            continue
+        seq = []
+        for x in sir.walk(f.body):
+            wfc = sir.write_fmt_call(x)
+            if wfc:
+                for pc in wfc[1]:
+                    if pc[0] == "lit":
+                        seq.append(("lit", pc[1]))
+                    else:
+                        seq.append(("hole", sir.expr_str(pc[1])))
+            elif x.get("k") == "mcall" and sir.root_expr_name(x["recv"]) in tnames + fnames and x["m"] not in ("is_legal_lvalue_path",):
+                seq.append(("call", x["m"], sir.root_expr_name(x["recv"])))
+            elif x.get("k") == "arm":
+                seq.append(("lit", "\x02"))
+        state = None
+        for t in seq:
+            if t[0] == "lit":
+                txt = t[1]
+                if txt.endswith("?"):
+                    state = "true"
+                elif txt.startswith(":") or txt == ":":
+                    state = "false" if state in ("true", "true-seen") else None
+                elif txt in ("\x02", "\x03"):
+                    state = None
+                continue
+            ref = t[2] if t[0] == "call" else t[1]
+            used_t = any(re.search(r"\b%s\b" % re.escape(x), ref) for x in tnames)
+            used_f = any(re.search(r"\b%s\b" % re.escape(x), ref) for x in fnames)
+            if not (used_t or used_f):
+                continue
+            n += 1
+            key = "C11.cond/%s#%d" % (f.qual, n)
+            if state in ("true", "true-seen"):
+                okk = used_t and not used_f
+                obs.append(ob(key, okk, ctx.where(f), "between `?` and `:` the emitter writes %s" % ref, witness=None if okk else "(c ? a : b).z : both sides of the emitted path conditional name the same branch"))
+                state = "true-seen"
+            elif state == "false":
+                okk = used_f and not used_t
+                obs.append(ob(key, okk, ctx.where(f), "after `:` the emitter writes %s" % ref, witness=None if okk else "(c ? a : b).z : both sides of the emitted path conditional name the same branch"))
+                state = None
+    if n < 6:
+        obs.append(ob("C11.floor/ternaries", False, "proc_gen/expr.rs", "only %d conditional branch emissions found (floor 6)" % n))
     return obs
 
 
@@ -309,6 +372,7 @@ def run(ctx):
     else:
         obs = r
     obs += guard_rule(ctx)
+    obs += ternary_rule(ctx)
     obs += never_rule(ctx)
     from rules.c07 import emit_rule
     for f in ctx.tc.fns:
